@@ -12,6 +12,9 @@
    goroutine executes from one yield point to the next.  Yield points are either between two
    public calls (harness level: "start", "register", "got", "work") or the build-tagged hooks
    inside the package (hooks/lavasession_provider.patch):
+     "regnew"   reg_before_register    RegisterProviderSessionWithConsumer, IsActiveProject (read lock) said "not
+                                       registered", before registerNewConsumer (write lock)   (hooks/lavasession_provider_register.patch)
+     "regget"   reg_before_getsession  RegisterProviderSessionWithConsumer, before its final GetSession
      "create"   psc_before_lock  createNewSingleProviderSession, before pswc.Lock.Lock()
      "addcas"   add_cu_read      validateAndAddUsedCU, between the load of UsedComputeUnits and the CAS
      "subcas"   sub_cu_read      validateAndSubUsedCU, between the load and the CAS
@@ -42,13 +45,15 @@ VARIABLES par,      \* the scenario (constant along a behaviour)
           objs,     \* sequence of session objects [sid, cuSum, latest, relayNum, locked], creation order
           smap,     \* pswc.Sessions : sid -> index into objs
           used, missing,    \* epochData.UsedComputeUnits / MissingComputeUnits
-          reg,      \* consumer/project registered in the manager for par.epoch
+          reg,      \* the project has an entry (ProviderSessionsWithConsumerProject) in the manager for par.epoch
+          creg,     \* consumers paired with the project in consumerPairedWithProjectMap[par.epoch]
+          npswc,    \* number of project entries ever created for par.epoch (the code re-checks: at most 1)
           blocked, cur,     \* psm.blockedEpochHeight, psm.currentEpoch
           mine,     \* per process: session object it works on (0 = none)
           lu, lc,   \* per process locals: last value read from `used` / cuToAdd (relay), old CuSum (updater)
           hist
 
-vars == <<par, pc, out, objs, smap, used, missing, reg, blocked, cur, mine, lu, lc, hist>>
+vars == <<par, pc, out, objs, smap, used, missing, reg, creg, npswc, blocked, cur, mine, lu, lc, hist>>
 
 Relays == DOMAIN par.rel
 Upds   == DOMAIN par.upd
@@ -80,6 +85,8 @@ InitFor(P) ==
   /\ used = SeqSum([i \in 1..Len(P.pre) |-> P.pre[i].cu])
   /\ missing = 0
   /\ reg = (Len(P.pre) > 0)
+  /\ creg = IF Len(P.pre) > 0 THEN {1} ELSE {}
+  /\ npswc = IF Len(P.pre) > 0 THEN 1 ELSE 0
   /\ cur = P.epoch0
   /\ blocked = IF P.epoch0 > P.dist THEN P.epoch0 - P.dist ELSE 0
   /\ mine = [p \in DOMAIN P.rel \cup DOMAIN P.upd \cup DOMAIN P.ep |-> 0]
@@ -108,20 +115,43 @@ FindSession(p) ==
   THEN /\ TryUse(p, smap[par.rel[p].sid]) /\ UNCHANGED smap
   ELSE /\ Goto(p, "create") /\ UNCHANGED <<objs, mine, smap>>
 
-\* GetSession
+\* GetSession: epoch check, readConsumerToPairedWithProjectMap, IsActiveProject, then the session
+GetSess(p) ==
+  IF ~ValidEpoch THEN /\ Fin(p, "invalid_epoch") /\ UNCHANGED <<objs, mine, smap>>
+  ELSE IF par.rel[p].cons \notin creg \/ ~reg
+  THEN /\ UNCHANGED <<objs, mine, smap>>                                     \* ConsumerNotRegisteredYet
+       /\ IF pc[p] = "start" THEN Goto(p, "register") ELSE Fin(p, "not_registered_yet")
+  ELSE FindSession(p)
+
 RStart(p) ==
   /\ pc[p] = "start" /\ p \in Relays
-  /\ IF ~ValidEpoch THEN /\ Fin(p, "invalid_epoch") /\ UNCHANGED <<objs, mine, smap>>
-     ELSE IF ~reg THEN /\ Goto(p, "register") /\ UNCHANGED <<objs, mine, smap>>   \* ConsumerNotRegisteredYet
-     ELSE FindSession(p)
-  /\ UNCHANGED <<used, missing, reg, blocked, cur, lu, lc>>
+  /\ GetSess(p)
+  /\ UNCHANGED <<used, missing, reg, creg, npswc, blocked, cur, lu, lc>>
 
-\* RegisterProviderSessionWithConsumer = IsActiveProject / registerNewConsumer | writeConsumer... ; GetSession
+\* RegisterProviderSessionWithConsumer, part 1: IsActiveProject under the manager's READ lock;
+\* registered project => writeConsumerToPairedWithProjectMap (write lock), else on to registerNewConsumer
 RRegister(p) ==
   /\ pc[p] = "register" /\ p \in Relays
-  /\ IF ~ValidEpoch THEN /\ Fin(p, "invalid_epoch") /\ UNCHANGED <<objs, mine, smap, reg>>
-     ELSE /\ reg' = TRUE /\ FindSession(p)
-  /\ UNCHANGED <<used, missing, blocked, cur, lu, lc>>
+  /\ IF ~ValidEpoch THEN /\ Fin(p, "invalid_epoch") /\ UNCHANGED creg
+     ELSE IF reg THEN /\ creg' = creg \cup {par.rel[p].cons} /\ Goto(p, "regget")
+     ELSE /\ Goto(p, "regnew") /\ UNCHANGED creg
+  /\ UNCHANGED <<objs, mine, smap, used, missing, reg, npswc, blocked, cur, lu, lc>>
+
+\* part 2: registerNewConsumer under the manager's WRITE lock: epoch re-check, project entry RE-CHECK (an entry
+\* created by another relay since part 1 is kept), consumer -> project mapping
+RRegNew(p) ==
+  /\ pc[p] = "regnew" /\ p \in Relays
+  /\ IF ~ValidEpoch THEN /\ Fin(p, "invalid_epoch") /\ UNCHANGED <<reg, creg, npswc>>
+     ELSE /\ reg' = TRUE /\ npswc' = IF reg THEN npswc ELSE npswc + 1
+          /\ creg' = creg \cup {par.rel[p].cons}
+          /\ Goto(p, "regget")
+  /\ UNCHANGED <<objs, mine, smap, used, missing, blocked, cur, lu, lc>>
+
+\* part 3: the final GetSession of RegisterProviderSessionWithConsumer
+RRegGet(p) ==
+  /\ pc[p] = "regget" /\ p \in Relays
+  /\ GetSess(p)
+  /\ UNCHANGED <<used, missing, reg, creg, npswc, blocked, cur, lu, lc>>
 
 \* createNewSingleProviderSession from pswc.Lock.Lock() on (+ the RelayNum check of the caller)
 RCreate(p) ==
@@ -136,7 +166,7 @@ RCreate(p) ==
              ELSE /\ objs' = Append(objs, [sid |-> par.rel[p].sid, cuSum |-> 0, latest |-> 0, relayNum |-> 0, locked |-> TRUE])
                   /\ mine' = [mine EXCEPT ![p] = id]
                   /\ Goto(p, "got")
-  /\ UNCHANGED <<used, missing, reg, blocked, cur, lu, lc>>
+  /\ UNCHANGED <<used, missing, reg, creg, npswc, blocked, cur, lu, lc>>
 
 \* PrepareSessionForUsage up to the first load of the parent's used CU (incl. SafeAddMissingComputeUnits,
 \* which has no yield point); on error the caller (initRelay) disbands = unlocks the session
@@ -155,7 +185,7 @@ RPrepare(p) ==
              /\ lc' = [lc EXCEPT ![p] = tot2 - o.cuSum]              \* cuToAdd
              /\ lu' = [lu EXCEPT ![p] = used]
              /\ Goto(p, "addcas") /\ UNCHANGED objs
-  /\ UNCHANGED <<smap, used, reg, blocked, cur, mine>>
+  /\ UNCHANGED <<smap, used, reg, creg, npswc, blocked, cur, mine>>
 
 \* validateAndAddUsedCU from the max check on; success continues to the end of PrepareSessionForUsage
 RAddCas(p) ==
@@ -169,14 +199,14 @@ RAddCas(p) ==
           /\ objs' = [objs EXCEPT ![id].latest = c, ![id].cuSum = @ + c]
           /\ Goto(p, "work") /\ UNCHANGED lu
      ELSE /\ lu' = [lu EXCEPT ![p] = used] /\ UNCHANGED <<pc, out, objs, used>>
-  /\ UNCHANGED <<smap, missing, reg, blocked, cur, mine, lc>>
+  /\ UNCHANGED <<smap, missing, reg, creg, npswc, blocked, cur, mine, lc>>
 
 \* OnSessionDone
 RDone(p) ==
   /\ pc[p] = "work" /\ p \in Relays /\ ~par.rel[p].fail
   /\ objs' = [objs EXCEPT ![mine[p]].relayNum = par.rel[p].rn, ![mine[p]].latest = 0, ![mine[p]].locked = FALSE]
   /\ Fin(p, "ok")
-  /\ UNCHANGED <<smap, used, missing, reg, blocked, cur, mine, lu, lc>>
+  /\ UNCHANGED <<smap, used, missing, reg, creg, npswc, blocked, cur, mine, lu, lc>>
 
 \* OnSessionFailure up to the load in validateAndSubUsedCU; stale epoch => onSessionDone, no rollback
 RFail(p) ==
@@ -187,7 +217,7 @@ RFail(p) ==
      ELSE /\ objs' = [objs EXCEPT ![mine[p]].cuSum = @ - objs[mine[p]].latest]
           /\ lu' = [lu EXCEPT ![p] = used]
           /\ Goto(p, "subcas")
-  /\ UNCHANGED <<smap, used, missing, reg, blocked, cur, mine, lc>>
+  /\ UNCHANGED <<smap, used, missing, reg, creg, npswc, blocked, cur, mine, lc>>
 
 RSubCas(p) ==
   /\ pc[p] = "subcas" /\ p \in Relays
@@ -197,19 +227,19 @@ RSubCas(p) ==
           /\ objs' = [objs EXCEPT ![id].latest = 0, ![id].locked = FALSE]
           /\ Fin(p, "failed") /\ UNCHANGED lu
      ELSE /\ lu' = [lu EXCEPT ![p] = used] /\ UNCHANGED <<pc, out, objs, used>>
-  /\ UNCHANGED <<smap, missing, reg, blocked, cur, mine, lc>>
+  /\ UNCHANGED <<smap, missing, reg, creg, npswc, blocked, cur, mine, lc>>
 
 -----------------------------------------------------------------------------
 (* UpdateSessionCU *)
 UStart(u) ==
   /\ pc[u] = "start" /\ u \in Upds
   /\ IF ~ValidEpoch THEN /\ Fin(u, "invalid_epoch") /\ UNCHANGED <<mine, lc>>
-     ELSE IF ~reg THEN /\ Fin(u, "not_registered") /\ UNCHANGED <<mine, lc>>
+     ELSE IF ~reg \/ 1 \notin creg THEN /\ Fin(u, "not_registered") /\ UNCHANGED <<mine, lc>>   \* updater uses consumer 1
      ELSE IF par.upd[u].sid \notin DOMAIN smap THEN /\ Fin(u, "no_session") /\ UNCHANGED <<mine, lc>>
      ELSE /\ mine' = [mine EXCEPT ![u] = smap[par.upd[u].sid]]
           /\ lc' = [lc EXCEPT ![u] = objs[smap[par.upd[u].sid]].cuSum]
           /\ Goto(u, "uloaded")
-  /\ UNCHANGED <<objs, smap, used, missing, reg, blocked, cur, lu>>
+  /\ UNCHANGED <<objs, smap, used, missing, reg, creg, npswc, blocked, cur, lu>>
 
 ULoaded(u) ==
   /\ pc[u] = "uloaded" /\ u \in Upds
@@ -218,19 +248,19 @@ ULoaded(u) ==
      ELSE IF ~FixUpdate \/ objs[id].cuSum = lc[u]                    \* before F8: plain store
      THEN /\ objs' = [objs EXCEPT ![id].cuSum = n] /\ Goto(u, "uswapped") /\ UNCHANGED lc
      ELSE /\ lc' = [lc EXCEPT ![u] = objs[id].cuSum] /\ UNCHANGED <<pc, out, objs>>   \* CAS failed, reload
-  /\ UNCHANGED <<smap, used, missing, reg, blocked, cur, mine, lu>>
+  /\ UNCHANGED <<smap, used, missing, reg, creg, npswc, blocked, cur, mine, lu>>
 
 USwapped(u) ==
   /\ pc[u] = "uswapped" /\ u \in Upds
   /\ IF FixUpdate
      THEN /\ used' = used + (par.upd[u].newcu - lc[u]) /\ Fin(u, "ok") /\ UNCHANGED lu   \* atomic add
      ELSE /\ lu' = [lu EXCEPT ![u] = used] /\ Goto(u, "uparent") /\ UNCHANGED used
-  /\ UNCHANGED <<objs, smap, missing, reg, blocked, cur, mine, lc>>
+  /\ UNCHANGED <<objs, smap, missing, reg, creg, npswc, blocked, cur, mine, lc>>
 
 UParent(u) ==                                                         \* only before F8: plain store
   /\ pc[u] = "uparent" /\ u \in Upds
   /\ used' = lu[u] + (par.upd[u].newcu - lc[u]) /\ Fin(u, "ok")
-  /\ UNCHANGED <<objs, smap, missing, reg, blocked, cur, mine, lu, lc>>
+  /\ UNCHANGED <<objs, smap, missing, reg, creg, npswc, blocked, cur, mine, lu, lc>>
 
 -----------------------------------------------------------------------------
 (* UpdateEpoch: one critical section under psm.lock *)
@@ -238,15 +268,17 @@ EStep(e) ==
   /\ pc[e] = "start" /\ e \in Eps
   /\ LET n == par.ep[e] IN
      IF n < blocked \/ n <= cur
-     THEN /\ Fin(e, "rejected") /\ UNCHANGED <<blocked, cur, reg>>
+     THEN /\ Fin(e, "rejected") /\ UNCHANGED <<blocked, cur, reg, creg, npswc>>
      ELSE LET b == IF n > par.dist THEN n - par.dist ELSE 0 IN
           /\ blocked' = b /\ cur' = n
-          /\ reg' = (reg /\ par.epoch > b)                            \* filterOldEpochEntries
+          /\ reg' = (reg /\ par.epoch > b)                            \* filterOldEpochEntries (both maps)
+          /\ creg' = IF par.epoch > b THEN creg ELSE {}
+          /\ UNCHANGED npswc
           /\ Fin(e, "ok")
   /\ UNCHANGED <<objs, smap, used, missing, mine, lu, lc>>
 
 -----------------------------------------------------------------------------
-Step(p) == \/ RStart(p) \/ RRegister(p) \/ RCreate(p) \/ RPrepare(p) \/ RAddCas(p)
+Step(p) == \/ RStart(p) \/ RRegister(p) \/ RRegNew(p) \/ RRegGet(p) \/ RCreate(p) \/ RPrepare(p) \/ RAddCas(p)
            \/ RDone(p) \/ RFail(p) \/ RSubCas(p)
            \/ UStart(p) \/ ULoaded(p) \/ USwapped(p) \/ UParent(p)
            \/ EStep(p)
@@ -270,6 +302,8 @@ OneObject == /\ \A i, j \in DOMAIN objs : i # j => objs[i].sid # objs[j].sid
              /\ \A p \in Relays : Holding(p) => /\ par.rel[p].sid \in DOMAIN smap
                                                  /\ smap[par.rel[p].sid] = mine[p]
                                                  /\ objs[mine[p]].locked
+\* one project entry per epoch: a second one would hand out a fresh CU budget and orphan the sessions of the first
+OneProjectEntry == npswc <= 1
 \* accepted CU never exceeds max * (virtualEpoch + 1) at acceptance time
 AcceptWithinMaxA == \A p \in Relays : (pc[p] = "addcas" /\ pc'[p] = "work") => used' <= MaxAllowed
 AcceptWithinMax == [][AcceptWithinMaxA]_vars
@@ -280,7 +314,7 @@ RelayNumIncreases == [][RelayNumIncreasesA]_vars
 AcceptedRelayNumA == \A p \in Relays : (~Holding(p) /\ Holding(p)') => par.rel[p].rn > objs'[mine'[p]].relayNum
 AcceptedRelayNum == [][AcceptedRelayNumA]_vars
 \* used CU = sum of the session CU sums whenever nobody is in the middle of an update
-Calm == \A p \in Procs : pc[p] \in {"start", "register", "create", "got", "fin"}
+Calm == \A p \in Procs : pc[p] \in {"start", "register", "regnew", "regget", "create", "got", "fin"}
 SumCu == SetSum(DOMAIN smap, LAMBDA s : objs[smap[s]].cuSum)
 Accounting == Calm => used = SumCu
 \* the same at every state, with the updates in flight accounted for (uses unobservable locals: design level only)
@@ -295,7 +329,8 @@ NonNegative == used >= 0 /\ \A i \in DOMAIN objs : objs[i].cuSum >= 0 /\ objs[i]
 
 -----------------------------------------------------------------------------
 (* Scenarios.  Relay record: [sid, rn, cu, total, fail]; updater: [sid, newcu]; epoch updater: new epoch. *)
-R(sid, rn, cu, total, fail) == [sid |-> sid, rn |-> rn, cu |-> cu, total |-> total, fail |-> fail]
+R(sid, rn, cu, total, fail) == [sid |-> sid, rn |-> rn, cu |-> cu, total |-> total, fail |-> fail, cons |-> 1]
+R2(sid, rn, cu, total, fail) == [sid |-> sid, rn |-> rn, cu |-> cu, total |-> total, fail |-> fail, cons |-> 2]   \* second consumer of the project
 U(sid, n) == [sid |-> sid, newcu |-> n]
 NoProc == [x \in {} |-> 0]
 Base == [maxcu |-> 40, ve |-> 0, misscap |-> 10, epoch |-> 10, epoch0 |-> 10, dist |-> 5]
@@ -318,14 +353,23 @@ ScnMix == {Scn(P7, [r1 |-> R(7, 2, 10, t1, f1), r2 |-> R(7, 3, 10, t2, FALSE)], 
 \* two updaters and a relay on the same session
 ScnTwoUpd == {Scn(P7, [r1 |-> R(7, 2, 10, 20, f1)], [u1 |-> U(7, 15), u2 |-> U(7, 25)], NoProc) : f1 \in BOOLEAN}
 
-ScnQuick == {Scn(<<>>, [r1 |-> R(7, 1, 10, 10, FALSE), r2 |-> R(7, 2, 10, 20, TRUE)], NoProc, [e1 |-> 20]),
+\* first relays of one project in the epoch: registration races (same / different consumer, same / different session id),
+\* a third relay arrives later; cu chosen so that a fresh budget would exceed the allowance
+ScnRegister == {Scn(<<>>, [r1 |-> R(7, 1, 30, 30, f1), r2 |-> IF c2 = 1 THEN R(s2, 1, 30, 30, f2) ELSE R2(s2, 1, 30, 30, f2),
+                           r3 |-> R(9, 1, 30, 30, FALSE)], upd, ep) :
+                  f1 \in BOOLEAN, f2 \in BOOLEAN, c2 \in {1, 2}, s2 \in {7, 8},
+                  upd \in {NoProc, [u1 |-> U(7, 35)]}, ep \in {NoProc, [e1 |-> 12]}}
+ScnQuick == {Scn(<<>>, [r1 |-> R(7, 1, 30, 30, FALSE), r2 |-> R2(8, 1, 30, 30, TRUE), r3 |-> R(9, 1, 30, 30, FALSE)], NoProc, NoProc),
+             Scn(<<>>, [r1 |-> R(7, 1, 30, 30, TRUE), r2 |-> R(7, 1, 30, 30, FALSE), r3 |-> R(9, 1, 30, 30, FALSE)], NoProc, NoProc),
+             Scn(<<>>, [r1 |-> R(7, 1, 10, 10, FALSE), r2 |-> R(7, 2, 10, 20, TRUE)], NoProc, [e1 |-> 20]),
              Scn(P7, [r1 |-> R(7, 2, 10, 20, TRUE), r2 |-> R(8, 1, 10, 10, FALSE)], [u1 |-> U(7, 25)], NoProc),
              Scn(P7, [r1 |-> R(7, 2, 10, 15, FALSE), r2 |-> R(7, 3, 10, 30, FALSE)], [u1 |-> U(7, 25)], [e1 |-> 12]),
              [Scn(P7, [r1 |-> R(8, 1, 20, 20, TRUE), r2 |-> R(9, 1, 20, 20, FALSE), r3 |-> R(7, 2, 10, 20, FALSE)], NoProc, NoProc)
                 EXCEPT !.ve = 0]}
-ScnAll == ScnCreate \cup ScnUpdate \cup ScnMax \cup ScnMix \cup ScnTwoUpd
+ScnAll == ScnCreate \cup ScnUpdate \cup ScnMax \cup ScnMix \cup ScnTwoUpd \cup ScnRegister
 \* small scenarios whose schedules are enumerated exhaustively (thorough tier)
-ScnEnum == {Scn(<<>>, [r1 |-> R(7, 1, 10, 10, FALSE), r2 |-> R(7, 2, 10, 20, TRUE)], NoProc, NoProc),
+ScnEnum == {Scn(<<>>, [r1 |-> R(7, 1, 30, 30, FALSE), r2 |-> R2(8, 1, 30, 30, TRUE)], NoProc, NoProc),
+            Scn(<<>>, [r1 |-> R(7, 1, 10, 10, FALSE), r2 |-> R(7, 2, 10, 20, TRUE)], NoProc, NoProc),
             Scn(<<>>, [r1 |-> R(7, 1, 10, 10, TRUE), r2 |-> R(7, 1, 10, 10, FALSE)], NoProc, [e1 |-> 20]),
             Scn(P7, [r1 |-> R(7, 2, 10, 20, FALSE)], [u1 |-> U(7, 25)], NoProc),
             Scn(P7, [r1 |-> R(7, 2, 10, 20, TRUE)], [u1 |-> U(7, 15)], NoProc),
